@@ -131,6 +131,47 @@ def run(ctx):
                 f"fc_classify := {res(lambda: classify_code(f), lambda x: x)}; "
                 f"fc_tag := {res(lambda: it.get_field_tag(f), lambda t: 'None' if t is None else f'(Some {int(t)})')}; "
                 f"fc_kafka := {res(lambda: it.get_schema_field_type(f), cstr)}; fc_default := {d} |}}")
+    # the two dispatch tables, exhaustively: every Kafka type name (and some unknown ones) x flexible x optional
+    from kio.serial import _parse as kp, _serialize as ks
+
+    R_NAMES = {"read_int8": "PInt 1 true", "read_int16": "PInt 2 true", "read_int32": "PInt 4 true", "read_int64": "PInt 8 true",
+               "read_uint8": "PInt 1 false", "read_uint16": "PInt 2 false", "read_uint32": "PInt 4 false", "read_uint64": "PInt 8 false",
+               "read_float64": "PF64", "read_compact_string": "PStr true false", "read_compact_string_nullable": "PStr true true",
+               "read_legacy_string": "PStr false false", "read_nullable_legacy_string": "PStr false true",
+               "read_compact_string_as_bytes": "PBytes true false", "read_compact_string_as_bytes_nullable": "PBytes true true",
+               "read_legacy_bytes": "PBytes false false", "read_nullable_legacy_bytes": "PBytes false true", "read_uuid": "PUuid",
+               "read_boolean": "PBool", "read_error_code": "PErrorCode", "read_timedelta_i32": "PTd32", "read_timedelta_i64": "PTd64",
+               "read_datetime_i64": "PDt false", "read_nullable_datetime_i64": "PDt true"}
+    W_NAMES = {"write_int8": "PInt 1 true", "write_int16": "PInt 2 true", "write_int32": "PInt 4 true", "write_int64": "PInt 8 true",
+               "write_uint8": "PInt 1 false", "write_uint16": "PInt 2 false", "write_uint32": "PInt 4 false", "write_uint64": "PInt 8 false",
+               "write_float64": "PF64", "write_legacy_string": "PStr false false", "write_nullable_legacy_string": "PStr false true",
+               "write_legacy_bytes": "PBytes false false", "write_nullable_legacy_bytes": "PBytes false true", "write_uuid": "PUuid",
+               "write_boolean": "PBool", "write_error_code": "PErrorCode", "write_timedelta_i32": "PTd32", "write_timedelta_i64": "PTd64",
+               "write_datetime_i64": "PDt false", "write_nullable_datetime_i64": "PDt true"}
+
+    def dispatch_term(fn, names, kt, flex, opt):
+        try:
+            f = fn(kt, flex, opt)
+        except NotImplementedError:
+            return "(Err ENotImplemented)"
+        except Exception as e:  # noqa
+            return f"(Err EAssert) (* {type(e).__name__} *)"
+        n = getattr(f, "__name__", "?")
+        if n in ("write_compact_string", "write_nullable_compact_string"):     # one function serves str and bytes
+            kind = "PStr" if kt == "string" else "PBytes"
+            return f"(Ok ({kind} true {'true' if 'nullable' in n else 'false'}))"
+        if n not in names or getattr(kp.readers if names is R_NAMES else ks.writers, n, None) is not f:
+            return "(Err EAssert)"
+        return f"(Ok ({names[n]}))"
+
+    kts = ["int8", "int16", "int32", "int64", "uint8", "uint16", "uint32", "uint64", "float64", "string", "bytes", "records", "uuid",
+           "bool", "error_code", "timedelta_i32", "timedelta_i64", "datetime_i64", "", "int128", "String", "varint", "float32", "struct"]
+    dcases = []
+    for kt in kts:
+        for flex in (False, True):
+            for opt in (False, True):
+                dcases.append(f"({cstr(kt)}, {'true' if flex else 'false'}, {'true' if opt else 'false'}, "
+                              f"{dispatch_term(kp.get_reader, R_NAMES, kt, flex, opt)}, {dispatch_term(ks.get_writer, W_NAMES, kt, flex, opt)})")
     header = ("From Coq Require Import ZArith List Bool String.\nFrom KioV Require Import Base.Res Codec.Value Codec.Check Schema.Raw "
               "Schema.Introspect Schema.IntrospectCheck.\nFrom KioG Require Import Shipped.\nImport ListNotations.\n"
               "Open Scope string_scope.\nOpen Scope Z_scope.\n")
@@ -155,10 +196,21 @@ def run(ctx):
                                  + "\n].\nEval vm_compute in (failing (check_fcase sp) cases).\n")
     procs.append((name, "f", 0, subprocess.Popen(["timeout", "900", "coqc", *common.COQ_ARGS, "-Q", str(d), "KioG", f"{name}.v"],
                                                  cwd=d, stdout=subprocess.PIPE, stderr=subprocess.STDOUT, text=True)))
+    name = "CorrC13d"
+    (d / f"{name}.v").write_text(
+        header + "From KioV Require Import Codec.PrimCodec.\n"
+        "Definition req (a b : res pcodec) : bool := match a, b with Ok x, Ok y => pcodec_eqb x y | Err x, Err y => err_eqb x y | _, _ => false end.\n"
+        "Definition dcases : list (string * bool * bool * res pcodec * res pcodec) := [\n" + ";\n".join(dcases) + "\n].\n"
+        "Eval vm_compute in (failing (fun k => match k with (kt, f, o, r, w) => req (prim_codec kt f o) r && req (prim_codec kt f o) w end) dcases).\n")
+    procs.append((name, "d", 0, subprocess.Popen(["timeout", "900", "coqc", *common.COQ_ARGS, "-Q", str(d), "KioG", f"{name}.v"],
+                                                 cwd=d, stdout=subprocess.PIPE, stderr=subprocess.STDOUT, text=True)))
+    failing_d = []
     for name, kind, start, p in procs:
         out = p.communicate()[0]
         if p.returncode != 0:
             errs.append(f"{name}: {out[-1000:]}")
+        elif kind == "d":
+            failing_d += common.parse_nat_list(out)
         elif kind == "s":
             failing_s += [start + i for i in common.parse_nat_list(out)]
         else:
@@ -172,20 +224,24 @@ def run(ctx):
     if prop_bad:
         viol.append({"kind": "property", "what": "a class description is incoherent on the implementation",
                      "failing_input_found": True, "n_failing": len(prop_bad), "cases": prop_bad[:5]})
-    elif failing_s or failing_f:
+    elif failing_s or failing_f or failing_d:
         viol.append({"kind": "correspondence", "observation": "C13: is_optional / classify_field / get_field_tag / get_schema_field_type / "
                      "get_tagged_field_default vs Schema/Introspect.v", "failing_input_found": False,
-                     "n_disagreements": len(failing_s) + len(failing_f),
-                     "cases": [scases[i][:300] for i in failing_s[:3]] + [fcases[i][:400] for i in failing_f[:3]]})
+                     "n_disagreements": len(failing_s) + len(failing_f) + len(failing_d),
+                     "cases": [scases[i][:300] for i in failing_s[:3]] + [fcases[i][:400] for i in failing_f[:3]]
+                     + [{"dispatch (kafka_type, flexible, optional, get_reader, get_writer)": dcases[i]} for i in failing_d[:3]]})
     cov = {
         "exhaustive": True, "evaluations": n_fields + len(fcases), "distinct_nontrivial": n_fields + len(fcases),
         "traces_validated_against_impl": n_fields + len(fcases) - len(failing_s) - len(failing_f),
         "rule": "every field of every entity class (introspection results compared with the Gallina rendering) + synthetic "
                 "annotation x metadata combinations (unions of three, typing.Optional, bare/fixed tuples, list[...], missing / "
-                "non-str kafka_type, negative / huge / bool / str tags); readers and writers constructed for every class",
+                "non-str kafka_type, negative / huge / bool / str tags); readers and writers constructed for every class; the two "
+                "dispatch tables get_reader / get_writer compared with prim_codec on every (kafka type, flexible, optional) triple "
+                "incl. unknown type names (function identity by name; each named function's behaviour is C11's subject)",
         "classes": n_schema, "fields": n_fields, "synthetic_fields": len(fcases),
+        "dispatch_table_triples": len(dcases), "dispatch_disagreements": len(failing_d),
         "samples": [scases[0][:200], fcases[3][:300]],
         "instance_theorem": "c13_shipped : c13_ok shipped n_schema_classes = true  [vm_compute]; includes wf_env of the derived plans",
-        "property_failures_on_implementation": len(prop_bad), "correspondence_disagreements": len(failing_s) + len(failing_f),
+        "property_failures_on_implementation": len(prop_bad), "correspondence_disagreements": len(failing_s) + len(failing_f) + len(failing_d),
     }
     return {"instance_obligations": 1, "instance_discharged": ires["instance_discharged"], "violations": viol, "coverage": cov}
